@@ -15,19 +15,23 @@ CLAIMED = {
             "line telescopes to the two boundary faces for every number of cells (Finset.sum_range_sub) — so interior fluxes cancel for all sizes, spacings and fields; "
             "closed (no-flux / zero normal velocity) and periodic (equal end cells) lines give zero; a closed implicit or explicit step conserves the weighted sum for any dt; "
             "cellvolume = const x consistent volume on 8 classes; lifted to the triple sum over the whole index box (C01Box: boxSum_divergence, closed_step_box, domainIntegral_conserved_diffusion_advection: one implicit step of transient - diffusion + upwind + central - TVD with no-flux walls and zero wall-normal velocity leaves the sum of cellVolume*alpha*x unchanged). Counterexample theorems + known findings: SphericalGrid3D volume, upwind x periodic.",
-            "§6 C01", "Known findings sph3-volume-inconsistent and upwind-periodic-nonconservative are replayed on the real code every run."),
+            "§6 C01", "domainIntegral() and the value getter are regenerated from cell.py (T-obs) and proved equal to the model's box sum of cellvolume*value (GenEqObs). Known findings sph3-volume-inconsistent and upwind-periodic-nonconservative are replayed on the real code every run."),
     "C02": (TG, "Proved: (i) exactness of gradient / linear mean / Robin ghost on linear fields for any non-uniform axis, exact values with explicit remainders of the diffusion "
             "stencils on quadratics in Cartesian, cylindrical (=4) and spherical (=6 + h^2/(2 r^2), sph1: exactly 6) coordinates, exactness of central/upwind advection on linear fields, "
             "divergence-free radial velocities, the M-matrix error bound — i.e. every metric factor, sign and coefficient placement agrees with the continuous operator; "
             "(ii) a CONVERGENCE THEOREM over the reals (Taylor with Lagrange remainder + barrier function + tridiagonal comparison principle): for u in C^4 with -u''=f, every N>=2 and every "
             "field satisfying the model's assembled rows and Dirichlet ghost formulas on the uniform 1-D mesh, |x_i - u(x_i)| <= (M4 L^2/96 + 7 M2/8) (L/N)^2, although the boundary row is "
             "truncation-inconsistent at order 0 (proved); existence/uniqueness of the discrete solution; backward Euler: spatial error does not accumulate, temporal error <= n dt (Mtt dt/2). "
-            "PARTIAL: the O(h^2) rate is mechanised for the 1-D Cartesian Dirichlet model problem only; for the other classes, Neumann/Robin data and graded meshes a manufactured-solution "
+            "(iii) C02ConvBC: the same with a Robin / Neumann relation a u'(0) + b u(0) = c at the left side (a <= 0 <= b, not both 0; pure Neumann included) and Dirichlet at the right: the ghost-cell "
+            "Robin row is second-order consistent at the face and |x_i - u(x_i)| <= (M4 L^2/24 + 5 M3 L/4 + M2) (L/N)^2 for every N >= 2 and every field satisfying the model's rows "
+            "(also as `Solves`), existence/uniqueness; wrong-signed Robin data proved ill-posed (continuous and discrete counterexamples). "
+            "PARTIAL: the O(h^2) rate is mechanised for the 1-D Cartesian Dirichlet and Robin/Neumann-Dirichlet model problems only; for the other classes and graded meshes a manufactured-solution "
             "refinement study on all 9 classes runs as exploration and as the failing-input search.",
             "§6 C02, §13.3c", "Partial: consistency + stability for all classes, convergence rate proved for the 1-D model problem, explored elsewhere."),
     "C03": (TG, "Ghost values of the model satisfy a*(normal difference quotient with the 1/r, 1/(r sin theta) metric factor) + b*(face average) = c whenever defined, are defined iff the "
             "ghost coefficient is non-zero, are invariant under scaling (a,b,c); the solver's boundary row is equivalent to the same Robin relation, hence the ghost unknown the solver "
-            "computes is the value reported afterwards; wrap iff an axis side is flagged periodic; periodic rows <=> wrap when the end cells are equal (counterexample otherwise: known finding).",
+            "computes is the value reported afterwards; wrap iff an axis side is flagged periodic; periodic rows <=> wrap when the end cells are equal (counterexample otherwise: known finding). "
+            "plotprofile() regenerated from cell.py (T-obs) and proved to report, on every boundary face, exactly the face average (ghost + cell)/2 the Robin relation talks about (GenEqObs).",
             "§6 C03", "Known finding periodic-unequal-end-cells replayed every run."),
     "C04": (TG, "Assembled row/right-hand side = sum over the term list for matrix / vector / pair kinds (foldl = sum), invariant under permutation, scaling and negation; ghost rows never "
             "depend on the terms and interior rows never on the BCs; the assembled operator is linear, solutions superpose in (sources, boundary data c, previous values) and are linear given uniqueness. "
@@ -58,7 +62,8 @@ CLAIMED = {
             "with the real objects (flags, sharing, decoded freshness of cache and ghost layer, solve == fresh start) on random and bounded-exhaustive histories.",
             "§6 C09", "Counterexample theorems document the three repaired defects (shared BC object, explicit->implicit, copy of an outdated variable)."),
     "C10": (TG, "Constructor laws for every strictly increasing face list of any length; (N,L) form = face form on equispaced faces; cellvolume = geometric volume per cell for 8 classes "
-            "(annular sectors, shells), positivity, telescoping totals; SphericalGrid3D theta-factor proved NOT geometric over the reals (known finding).",
+            "(annular sectors, shells), positivity, telescoping totals; SphericalGrid3D theta-factor proved NOT geometric over the reals (known finding). cellLocations / faceLocations "
+            "regenerated from cell.py / face.py (T-obs) and proved equal to the model's cell centres / face positions for every class, component and position (GenEqObs).",
             "§6 C10", "Known finding sph3-cellvolume-theta-factor replayed every run."),
     "C11": (TG, "Two-point width-weighted means: betweenness, constants, HM <= AM over any ordered field, HM <= GM <= AM over the reals (Real.exp/log), linear exactness of linearMean on "
             "non-uniform grids, locality, donor-cell / inflow-boundary / zero-velocity cases of upwindMean, zero handling of harmonic and geometric means identical in 1-D and N-D.",
